@@ -14,56 +14,96 @@
 (*   SendIgnoresCancel = TRUE   event hand-off is a plain blocking send    *)
 (*                      (block/retriever.go, block/store.go): it only      *)
 (*                      blocks when the channel is full                    *)
+(*                                                                         *)
+(* Error reporting (node/full.go Run): the loops in Reporters hand a fatal *)
+(* error to Run over errCh with a plain blocking send and return; Run      *)
+(* receives from errCh at most once (in the select that also watches the   *)
+(* parent context), cancels the node context and then only waits for the   *)
+(* workers.  The loops in ReportOnCancel report an error that was caused   *)
+(* by the cancellation itself (SyncLoop: trySyncNextBlock returns          *)
+(* ctx.Err(); DAIncluderLoop: an execution layer that honours the context  *)
+(* fails SetFinal); the aggregation loop suppresses such errors.           *)
+(*   ErrCap             capacity of errCh (pinned tree: 1; with two        *)
+(*                      reporters that both fail after a stop request the  *)
+(*                      second send blocks forever and Run hangs)          *)
 (***************************************************************************)
 EXTENDS Integers, FiniteSets, TLC
 
 CONSTANTS Producers,  \* loops that hand events to the consumer (retrieve / store polling loops)
           Others,     \* loops that only wait and work
           Cap,        \* capacity of the event channel
-          GenesisInFuture, DelayIgnoresCancel, SendIgnoresCancel
+          GenesisInFuture, DelayIgnoresCancel, SendIgnoresCancel,
+          Reporters,        \* loops that report a fatal error to Run over errCh
+          ReportOnCancel,   \* those of them that also report an error caused by the cancellation
+          ErrCap            \* capacity of errCh
 
 Consumer == "sync"
 LoopsAll == Producers \cup Others \cup {Consumer, "aggregation"}
 
-VARIABLES pc, chan, cancelled, delayLeft
-vars == <<pc, chan, cancelled, delayLeft>>
+VARIABLES pc, chan, cancelled, delayLeft,
+          errq,     \* errors waiting in errCh
+          runpc     \* Run: "select" (listening to errCh and the parent context) | "joining" (wg.Wait) | "done"
+vars == <<pc, chan, cancelled, delayLeft, errq, runpc>>
 
 Init == /\ pc = [x \in LoopsAll |-> IF x = "aggregation" /\ GenesisInFuture THEN "delay" ELSE "waiting"]
         /\ chan = 0 /\ cancelled = FALSE /\ delayLeft = IF GenesisInFuture THEN 2 ELSE 0
+        /\ errq = 0 /\ runpc = "select"
 
-Cancel == ~cancelled /\ cancelled' = TRUE /\ UNCHANGED <<pc, chan, delayLeft>>
+Cancel == ~cancelled /\ cancelled' = TRUE /\ UNCHANGED <<pc, chan, delayLeft, errq, runpc>>
 
 \* time passes for the start-up delay
 DelayTick == /\ pc["aggregation"] = "delay" /\ delayLeft > 0 /\ delayLeft' = delayLeft - 1
              /\ (cancelled => DelayIgnoresCancel)      \* a cancellable wait ends before more time passes
-             /\ UNCHANGED <<pc, chan, cancelled>>
+             /\ UNCHANGED <<pc, chan, cancelled, errq, runpc>>
 DelayEnd == /\ pc["aggregation"] = "delay" /\ (delayLeft = 0 \/ (cancelled /\ ~DelayIgnoresCancel))
             /\ pc' = [pc EXCEPT !["aggregation"] = IF cancelled /\ ~DelayIgnoresCancel THEN "returned" ELSE "waiting"]
-            /\ UNCHANGED <<chan, cancelled, delayLeft>>
+            /\ UNCHANGED <<chan, cancelled, delayLeft, errq, runpc>>
 
-Wake(x) == /\ pc[x] = "waiting" /\ ~cancelled /\ pc' = [pc EXCEPT ![x] = "working"] /\ UNCHANGED <<chan, cancelled, delayLeft>>
-Return(x) == /\ pc[x] = "waiting" /\ cancelled /\ pc' = [pc EXCEPT ![x] = "returned"] /\ UNCHANGED <<chan, cancelled, delayLeft>>
+Wake(x) == /\ pc[x] = "waiting" /\ ~cancelled /\ pc' = [pc EXCEPT ![x] = "working"] /\ UNCHANGED <<chan, cancelled, delayLeft, errq, runpc>>
+Return(x) == /\ pc[x] = "waiting" /\ cancelled /\ pc' = [pc EXCEPT ![x] = "returned"] /\ UNCHANGED <<chan, cancelled, delayLeft, errq, runpc>>
 \* work ends (every blocking call inside takes the context); a producer then hands an event over
 WorkDone(x) == /\ pc[x] = "working"
                /\ pc' = [pc EXCEPT ![x] = IF x \in Producers /\ ~cancelled THEN "sending" ELSE "waiting"]
-               /\ UNCHANGED <<chan, cancelled, delayLeft>>
+               /\ UNCHANGED <<chan, cancelled, delayLeft, errq, runpc>>
 Send(x) == /\ pc[x] = "sending" /\ chan < Cap /\ chan' = chan + 1 /\ pc' = [pc EXCEPT ![x] = "waiting"]
-           /\ UNCHANGED <<cancelled, delayLeft>>
+           /\ UNCHANGED <<cancelled, delayLeft, errq, runpc>>
 AbortSend(x) == /\ pc[x] = "sending" /\ cancelled /\ ~SendIgnoresCancel /\ pc' = [pc EXCEPT ![x] = "waiting"]
-                /\ UNCHANGED <<chan, cancelled, delayLeft>>
-Recv == /\ pc[Consumer] = "waiting" /\ ~cancelled /\ chan > 0 /\ chan' = chan - 1 /\ UNCHANGED <<pc, cancelled, delayLeft>>
+                /\ UNCHANGED <<chan, cancelled, delayLeft, errq, runpc>>
+Recv == /\ pc[Consumer] = "waiting" /\ ~cancelled /\ chan > 0 /\ chan' = chan - 1 /\ UNCHANGED <<pc, cancelled, delayLeft, errq, runpc>>
+
+\* ---- fatal errors and Run (node/full.go) -------------------------------------------
+\* a reporter's work fails: a genuine failure at any time, or a failure caused by the cancellation
+Fail(x) == /\ pc[x] = "working" /\ x \in Reporters /\ (cancelled => x \in ReportOnCancel)
+           /\ pc' = [pc EXCEPT ![x] = "reporting"] /\ UNCHANGED <<chan, cancelled, delayLeft, errq, runpc>>
+\* errCh <- err (plain blocking send), then the loop returns
+Report(x) == /\ pc[x] = "reporting" /\ errq < ErrCap
+             /\ errq' = errq + 1 /\ pc' = [pc EXCEPT ![x] = "returned"] /\ UNCHANGED <<chan, cancelled, delayLeft, runpc>>
+\* unbuffered errCh: the send completes only while Run is in its select
+Rendezvous(x) == /\ pc[x] = "reporting" /\ ErrCap = 0 /\ runpc = "select"
+                 /\ pc' = [pc EXCEPT ![x] = "returned"] /\ cancelled' = TRUE /\ runpc' = "joining"
+                 /\ UNCHANGED <<chan, delayLeft, errq>>
+RunRecv == /\ runpc = "select" /\ errq > 0 /\ errq' = errq - 1 /\ cancelled' = TRUE /\ runpc' = "joining"
+           /\ UNCHANGED <<pc, chan, delayLeft>>
+RunStop == /\ runpc = "select" /\ cancelled /\ runpc' = "joining" /\ UNCHANGED <<pc, chan, cancelled, delayLeft, errq>>
+AllReturned == \A x \in LoopsAll : pc[x] = "returned"
+RunJoin == /\ runpc = "joining" /\ AllReturned /\ runpc' = "done" /\ UNCHANGED <<pc, chan, cancelled, delayLeft, errq>>
 
 Next == Cancel \/ DelayTick \/ DelayEnd \/ Recv
         \/ (\E x \in LoopsAll : Wake(x) \/ Return(x) \/ WorkDone(x))
         \/ (\E p \in Producers : Send(p) \/ AbortSend(p))
+        \/ (\E r \in Reporters : Fail(r) \/ Report(r) \/ Rendezvous(r))
+        \/ RunRecv \/ RunStop \/ RunJoin
 Spec == Init /\ [][Next]_vars
 Fair == /\ WF_vars(DelayEnd) /\ WF_vars(DelayTick)
         /\ \A y \in LoopsAll : WF_vars(Return(y)) /\ WF_vars(WorkDone(y))
         /\ \A z \in Producers : WF_vars(Send(z)) /\ WF_vars(AbortSend(z))
+        /\ \A r \in Reporters : WF_vars(Report(r)) /\ WF_vars(Rendezvous(r))
+        /\ WF_vars(RunRecv) /\ WF_vars(RunStop) /\ WF_vars(RunJoin)
 LiveSpec == Spec /\ Fair
 
-AllReturned == \A x \in LoopsAll : pc[x] = "returned"
 \* C13: once asked to stop, every activity returns ... promptly: without waiting for the start-up delay to run out
 StopsEventually == cancelled ~> AllReturned
+\* ... and the node shuts down: Run gets past wg.Wait
+RunReturns == cancelled ~> (runpc = "done")
 StopsPromptly == [][(cancelled /\ pc["aggregation"] = "delay") => ~(delayLeft' < delayLeft)]_vars
 ==========================================================================
